@@ -54,3 +54,6 @@ for f in sorted((V / "known_findings.d").glob("*.json")):
 (V / "known_findings.json").write_text(json.dumps({"version": 1, "findings": kf}, indent=1) + "\n")
 (V / "MANIFEST.json").write_text(json.dumps(m, indent=1) + "\n")
 print(f"{len(checks)} checks, {len(na)} not_applicable")
+# the AST pins follow /repo's HEAD (run with the interpreter the checks use)
+import subprocess
+subprocess.run(["/venv/bin/python", str(V / "tools" / "mkpins.py")], check=False)
